@@ -21,6 +21,9 @@ Fixpoint secrets_ok (prev : option event) (tr : list event) : bool :=
 
 Definition saw_prompt (e : event) : bool :=
   match e with Ask QInit (AI 1) | Ask QSession (AI 1) => true | _ => false end.
+(** the re-synchronisation read something that looks like a prompt (non-empty text) *)
+Definition prompt_echo (e : event) : bool :=
+  match e with Ask QReadPrompt (AT (_ :: _)) => true | _ => false end.
 Definition unique_set (e : event) : bool :=
   match e with Ask QUnique (AI (S _)) => true | _ => false end.
 
@@ -30,7 +33,7 @@ Definition dialogue_ok (o : opts) (r : outcome * list event) : bool :=
   secrets_ok None tr && (length (filter is_pw tr) <=? 1) && (length (filter is_yes tr) <=? 1) && (length tr <=? 26) &&
   match out with
   | RetTrue => (if auto_prompt_reset o then existsb unique_set tr else true) &&
-               (existsb saw_prompt tr || existsb unique_set tr || sync_original o)
+               (existsb saw_prompt tr || existsb unique_set tr || (sync_original o && existsb prompt_echo tr))
   | Pxssh _ => existsb (fun e => match e with Close => true | _ => false end) tr
   | _ => true
   end.
@@ -39,6 +42,7 @@ Ltac step :=
   match goal with
   | |- context[match ?sc with [] => _ | _ :: _ => _ end] => is_var sc; destruct sc as [|[?n| | |?s] sc]
   | |- context[match ?n with O => _ | S _ => _ end] => is_var n; destruct n
+  | |- context[Nat.eqb (length ?s) _] => is_var s; destruct s
   | |- context[Nat.eqb ?n _] => is_var n; destruct n
   | |- context[if ?b then _ else _] => destruct b
   end.
